@@ -618,6 +618,8 @@ impl Prop for Statics {
                 defeated: 5,
                 repeated_line: false,
                 attacker_defeated: false,
+                fillers: 0,
+                split: 0,
             }));
         }
         (v, format!("all digraphs (self-attacks included) on 0..={} labelled arguments, direct presentation; one fan of 2^20+7 attackers (grounded problems)", max))
